@@ -2,7 +2,7 @@
    exit handle.  Theorems only: the regenerated keep list, the descriptor-limit refusal and the
    range of the closing loop; that the image's descriptor set is {0,1,2,exit} for every parent
    table is decided by the tie's random-table families. *)
-From Verif Require Import Lib WorldSpec WorldSpec2 LibSpec LibSpec2 ChildSpec Build.
+From Verif Require Import Lib WorldSpec WorldSpec2 LibSpec LibSpec2 ChildSpec Build ForkChild.
 From Coq Require Import Lia.
 Local Open Scope Z_scope.
 
@@ -83,3 +83,45 @@ Qed.
 
 Example C11_ex : In 63 (seqZ 0 (63 + 1)).
 Proof. apply C11_loop_covers_limit. lia. Qed.
+
+(* THE CHILD WHEN NO EXEC FOLLOWS (fork mode), for every parent table: whatever descriptors the
+   forked child inherited (any table, any flags -- close-on-exec does not help here --, all below
+   the limit L), whatever the keep list and the error pipe's ends are: when the child side of
+   process_fork gives control back, the child's table is a sub-table of the inherited one that
+   holds ONLY numbers of the keep list (the error pipe's own ends excepted), and every kept
+   descriptor is exactly what it was.  A child that does not come back exited without an image. *)
+Theorem C11_fork_child_keeps_only_listed : forall L t prd pwr except w,
+  0 <= L -> (forall x, is_Some (t !! x) -> 0 <= x < L) -> stf L t w ->
+  match fork_child_part prd pwr except (ret tt) w with
+  | Ret _ w' => exists t', stf L t' w' /\
+      (forall x d, t' !! x = Some d -> t !! x = Some d /\ memZ x except = true /\ x <> prd /\ x <> pwr) /\
+      (forall x, memZ x except = true -> x <> prd -> x <> pwr -> t' !! x = t !! x)
+  | Stop w' => pr_image (curp w') = None
+  | Hang _ | Crash _ _ => True
+  end.
+Proof. exact fork_child_table. Qed.
+Print Assumptions C11_fork_child_keeps_only_listed.
+
+(* the same as a rule for whatever the child runs next (the child side of process_start, the
+   caller's own code): it starts in such a table *)
+Theorem C11_fork_child_continuation : forall G L t prd pwr except (k : MW unit) (Post : unit -> world -> Prop),
+  0 <= L -> (forall x, is_Some (t !! x) -> 0 <= x < L) ->
+  (forall t', kept_only t prd pwr except t' -> hoare (stf L t') k Post (QSG G)) ->
+  hoare (stf L t) (fork_child_part prd pwr except k) Post (QSG G).
+Proof. exact fork_child_reaches_k. Qed.
+Print Assumptions C11_fork_child_continuation.
+
+(* not vacuous, and the flags do not matter: descriptors 6 and 9 are close-on-exec, 5 and 11 are
+   not; with keep list [0; 6; 7] and the error pipe on 9 and 12 the child comes back with 0 and 6 *)
+Example C11_fork_child_ex :
+  let w := build_world 1000 0 7 [(0, {| f_obj := OExt 1 ARd; f_cloexec := false; f_nonblock := false |});
+                                 (5, {| f_obj := OExt 2 ARW; f_cloexec := false; f_nonblock := false |});
+                                 (6, {| f_obj := OExt 3 ARW; f_cloexec := true; f_nonblock := false |});
+                                 (9, {| f_obj := OExt 4 ARW; f_cloexec := true; f_nonblock := false |});
+                                 (11, {| f_obj := OExt 5 ARW; f_cloexec := false; f_nonblock := false |})]
+                       [] [] [47] [] 24 [] [] [] [] in
+  match fork_child_part 9 12 [0; 6; 7] (ret tt) w with
+  | Ret _ w' => map fst (map_to_list (pr_fds (curp w'))) = [0; 6]
+  | _ => False
+  end.
+Proof. vm_compute. reflexivity. Qed.
